@@ -35,7 +35,7 @@ for line in open(p).read().split('\n'):
         cells[3] = ' + '.join('%d/%d' % tuple(seeds[c][r]) for r in sorted(seeds.get(c, {}))) + ' |'
         line = ' | '.join(cells)
     elif line.startswith('| Property | Decided structural clause'):
-        line = '| Property | Decided structural clause | Rules | Seeds caught now (rounds 1 .. 7) |'
+        line = '| Property | Decided structural clause | Rules | Seeds caught now (rounds 1 .. 8) |'
     out.append(line)
 open(p, 'w').write('\n'.join(out))
 print('rewritten')
